@@ -145,8 +145,8 @@ Proof.
 Qed.
 
 Lemma normable_example_proof :
-  let l1 := SLeaf (LTensor true false (LConst 2) (PFin 1)) in
-  let l3 := SLeaf (LTensor true false (LArr [1; 2]) (PFin 3)) in
+  let l1 := SLeaf (LTensor (LConst 2) (PFin 1)) in
+  let l3 := SLeaf (LTensor (LArr [1; 2]) (PFin 3)) in
   let s := SProd (PWArr [1; 3]) PInf [l1; SProd (PWConst (/ 2)) (PFin 3) [l3; l1]] in
   normable wit_quirks s (ENode [ELeaf [1; 2]; ENode [ELeaf [0; 5]; ELeaf [1]]]).
 Proof.
